@@ -96,9 +96,7 @@ static QI q_inv(const QI& b) {     // b bounded, 0 not in the closure of b
 // operands straddling zero keeps the open/closed flag of the product it did not select) shows through
 // Linear_Form::operator*= and intervalize(); the variant compares those results up to openness of the ends.
 static QI known_relax(QI r) {
-#ifdef VF_SKIPKNOWN
-  r.lo_open = r.hi_open = false;
-#endif
+
   return r;
 }
 static Q two_pow(long e) { mpz_class z(1); if (e >= 0) { z <<= (unsigned long) e; return Q(z); } z <<= (unsigned long) (-e); return Q(mpz_class(1), z); }
